@@ -296,22 +296,63 @@ func rulePgPool(e *Engine, r *Reporter) {
 		})
 		r.Check(ok, fname(fn), e.pos(fn.Pos()), "pool = getPgxPool("+detail+")", "the pool is not selected from the caller's consistency preference: "+detail)
 	}
-	// getPgxPool: the secondary is returned only when preference != HIGHER_CONSISTENCY
+	// getPgxPool: the secondary is returned only when preference != HIGHER_CONSISTENCY.  The selection may be
+	// delegated to a same-package helper that receives the pools as arguments (one level).
 	okAll := true
 	n := 0
-	for _, rs := range returnSites(gp) {
-		if len(rs.Results) != 1 {
-			continue
-		}
-		d := describe_(rs.Results[0])
-		if strings.Contains(d, "secondary") || strings.Contains(d, "Secondary") {
-			n++
-			g, _ := mustPass(gp, rs.At, cutSpec{edge: notHigherConsistency})
-			if !g {
-				okAll = false
+	var scan func(fn *ssa.Function, isSecondary func(ssa.Value) bool, depth int)
+	scan = func(fn *ssa.Function, isSecondary func(ssa.Value) bool, depth int) {
+		for _, rs := range returnSites(fn) {
+			if len(rs.Results) != 1 {
+				continue
+			}
+			res := rs.Results[0]
+			if isSecondary(res) {
+				n++
+				if g, _ := mustPass(fn, rs.At, cutSpec{edge: notHigherConsistency}); !g {
+					okAll = false
+				}
+				continue
+			}
+			if c, ok := unwrap(res).(*ssa.Call); ok && depth > 0 {
+				h := staticCallee(c)
+				if h == nil || len(h.Blocks) == 0 || pkgOf(h) != pkgOf(fn) {
+					continue
+				}
+				// already behind the test at the call? then nothing to require of the helper
+				if g, _ := mustPass(fn, rs.At, cutSpec{edge: notHigherConsistency}); g {
+					continue
+				}
+				secIdx := map[int]bool{}
+				for i, a := range c.Call.Args {
+					if isSecondary(a) {
+						secIdx[i] = true
+					}
+				}
+				scan(h, func(v ssa.Value) bool {
+					return derivesFrom(v, func(x ssa.Value) bool {
+						p, ok := x.(*ssa.Parameter)
+						if !ok {
+							return false
+						}
+						for i, q := range h.Params {
+							if q == p && secIdx[i] {
+								return true
+							}
+						}
+						return false
+					}) || isSecondary(v)
+				}, depth-1)
 			}
 		}
 	}
+	scan(gp, func(v ssa.Value) bool {
+		// a load of the datastore's secondary-pool field (value identity, not text: a call that merely receives it is not it)
+		return derivesFrom(v, func(x ssa.Value) bool {
+			fa, ok := x.(*ssa.FieldAddr)
+			return ok && strings.Contains(strings.ToLower(fieldName(fa.X.Type(), fa.Field)), "secondary")
+		})
+	}, 1)
 	r.Check(okAll && n > 0, fname(gp)+" | secondary only when not HIGHER_CONSISTENCY", e.pos(gp.Pos()), fmt.Sprintf("%d returns of the secondary pool are behind the test", n),
 		"the secondary (replica) pool can be returned for a HIGHER_CONSISTENCY read")
 }
